@@ -170,6 +170,16 @@ def _main_check(ctx: Ctx) -> None:
             ctx.check(not evs, "ROUTE", inst + " (ignored)", function=FN, construct=f"{T} message creates an event", message="", file=fi.file, node=msg_loop)
     for c in ctors:
         T = enum_member(kwarg(c, "message_type"), "MessageType")
+        if T is None:
+            # `Message(message_type=msg.message_type, ..)`: the kind is the one the governing test selects
+            from ..astutil import path_conditions as _pc
+            yes, no = [], []
+            for t_, h_ in _pc(c, msg_loop):
+                if isinstance(t_, ast.Compare) and len(t_.ops) == 1 and isinstance(t_.ops[0], (ast.Eq, ast.Is)) and enum_member(t_.comparators[0], "MessageType"):
+                    (yes if h_ else no).append(enum_member(t_.comparators[0], "MessageType"))
+            if len(set(yes)) != 1 or set(yes) & set(no):
+                continue                      # no kind, or a path no message can take (a dispatch copied into a branch that fixes the kind)
+            T = yes[0]
         for f in fields.get(T, ()):
             v = kwarg(c, f)
             ctx.check(isinstance(v, ast.Attribute) and v.attr == f and isinstance(v.value, ast.Name) and v.value.id == m, "ROUTE",
@@ -188,8 +198,35 @@ def _main_check(ctx: Ctx) -> None:
             if sum(1 for x in ast.walk(track_loop) if isinstance(x, ast.Name) and x.id == nm_ and isinstance(x.ctx, ast.Store)) == 1:
                 member_locals.add(nm_)
 
+    # the group itself looked up: `g = next((g for g in groups if i in g), None)` -- `g is not None` says the track belongs to a group
+    group_locals = set()
+
+    def _group_lookup(e):
+        return isinstance(e, ast.Call) and isinstance(e.func, ast.Name) and e.func.id == "next" and len(e.args) == 2 and isinstance(e.args[1], ast.Constant) \
+            and e.args[1].value is None and isinstance(e.args[0], ast.GeneratorExp) and len(e.args[0].generators) == 1 and src(e.args[0].generators[0].iter) == groups \
+            and len(e.args[0].generators[0].ifs) == 1 and isinstance(e.args[0].generators[0].ifs[0], ast.Compare) and isinstance(e.args[0].generators[0].ifs[0].ops[0], ast.In) \
+            and src(e.args[0].generators[0].ifs[0].left) == idxv0 and src(e.args[0].generators[0].ifs[0].comparators[0]) == src(e.args[0].generators[0].target) \
+            and src(e.args[0].elt) == src(e.args[0].generators[0].target)
+    for s_ in ast.walk(track_loop):
+        if isinstance(s_, ast.Assign) and len(s_.targets) == 1 and isinstance(s_.targets[0], ast.Name) and _group_lookup(s_.value) \
+                and sum(1 for x in ast.walk(track_loop) if isinstance(x, ast.Name) and x.id == s_.targets[0].id and isinstance(x.ctx, ast.Store)) == 1:
+            group_locals.add(s_.targets[0].id)
+
+    def member_polarity(t):
+        """True: `t` says the track belongs to a group; False: it says the opposite; None: it says something else."""
+        if _member_call(t) or (isinstance(t, ast.Name) and t.id in member_locals):
+            return True
+        if isinstance(t, ast.Compare) and len(t.ops) == 1 and isinstance(t.comparators[0], ast.Constant) and t.comparators[0].value is None \
+                and ((isinstance(t.left, ast.Name) and t.left.id in group_locals) or _group_lookup(t.left)):
+            return isinstance(t.ops[0], (ast.IsNot, ast.NotEq))
+        return None
+    for s_ in ast.walk(track_loop):
+        if isinstance(s_, ast.Assign) and len(s_.targets) == 1 and isinstance(s_.targets[0], ast.Name) and member_polarity(s_.value) is True \
+                and sum(1 for x in ast.walk(track_loop) if isinstance(x, ast.Name) and x.id == s_.targets[0].id and isinstance(x.ctx, ast.Store)) == 1:
+            member_locals.add(s_.targets[0].id)
+
     def is_member_test(t):
-        return _member_call(t) or (isinstance(t, ast.Name) and t.id in member_locals)
+        return member_polarity(t) is True
 
     # notes only under group membership: with "the track belongs to a group" decided either way, a note of a grouped track is added
     # exactly once to the track's own sequence and a note of any other track is not added anywhere
@@ -197,7 +234,8 @@ def _main_check(ctx: Ctx) -> None:
         res = {}
         for member in (True, False):
             def decide(test, st, tc, member=member):
-                return member if is_member_test(test) else None
+                pol = member_polarity(test)
+                return None if pol is None else (member if pol else not member)
             evs = {}
             for k, st in TypeCase(p, fi, {m}, T, decide=decide).run_body(msg_loop.body):
                 for e, v in st.counts.items():
@@ -224,8 +262,8 @@ def _main_check(ctx: Ctx) -> None:
             if isinstance(t.op, ast.And):
                 return False if any(v is False for v in vs) else (True if all(v is True for v in vs) else None)
             return True if any(v is True for v in vs) else (False if all(v is False for v in vs) else None)
-        if is_member_test(t):
-            return member
+        if member_polarity(t) is not None:
+            return member if member_polarity(t) else not member
         if _is_meta_atom(t):
             return meta_ if isinstance(t.ops[0], ast.In) else not meta_
         return None
